@@ -263,6 +263,48 @@ C["C25"] = {
  "stubs": SRV_STUBS, "trusted_base": SRV_TB,
 }
 
+LIVE = ["connections are live scripted net.Conn objects; each connection handler (the real EstablishConnection/attachClient with its WriteLoop goroutine) runs as an interpreted goroutine, scheduled cooperatively: a goroutine runs until it blocks (conn read, channel, lock, WaitGroup) and every choice among runnable goroutines is an engine decision explored exhaustively"]
+# ---------------- C13 ----------------
+C["C13"] = {
+ "pkgs": ["."],
+ "technique": "bounded symbolic execution of the real connection handler (attachClient end to end, WriteLoop goroutine included) on a scripted connection whose first packet is a CONNECT with symbolic flags/version/name or a non-CONNECT; transcript parsed by the reference decoder",
+ "quick": {"harnesses": [H("VerifC13Attach")], "budget_s": 400, "witnesses": 8, "perm_limit": 1,
+   "bounds": "0..2 authentication hooks with symbolic verdicts; first packet: CONNECT (protocol name in {MQTT, MQIsdp, other}, version 3..6, clean, reserved bit, will flag/QoS 0..3/retain/payload present or not, username, password present/empty, client id empty or not), PINGREQ, or an arbitrary 2-byte header"},
+ "thorough": {"harnesses": [H("VerifC13Attach")], "budget_s": 900, "witnesses": 24, "perm_limit": 1, "bounds": "as quick"},
+ "outside_bounds": ["a concurrent publisher racing the resumed session's CONNACK (schedule half of the statement: 'nothing else reaches the client before it'); only the sequential order is decided", "CONNECT properties other than none"],
+ "stubs": SRV_STUBS + LIVE, "trusted_base": SRV_TB + ["reference CONNECT validity predicate in the harness (MQTT 3.1.2)"],
+}
+# ---------------- C14 ----------------
+C["C14"] = {
+ "pkgs": ["."],
+ "technique": "bounded symbolic execution of two real connection handlers (attachClient) for the same client id on live scripted connections, goroutine choices explored exhaustively; both transcripts parsed by the reference decoder",
+ "quick": {"harnesses": [H("VerifC14Takeover")], "budget_s": 300, "witnesses": 8, "perm_limit": 1,
+   "bounds": "previous session absent / connected / disconnected, protocol 4/5 and Clean flag of both connections symbolic, one subscription and one unacknowledged QoS 1 message in the old session, one later publish"},
+ "thorough": {"harnesses": [H("VerifC14Takeover")], "budget_s": 900, "witnesses": 24, "perm_limit": 1, "preempt": 1, "bounds": "as quick plus one pre-emption at a synchronisation operation"},
+ "outside_bounds": ["storage-restored sessions ('restored later' is C20/C21's)", "pre-emption inside the takeover beyond the stated bound; data-race freedom is assumed (C33 is not decided)"],
+ "stubs": SRV_STUBS + LIVE, "trusted_base": SRV_TB,
+}
+# ---------------- C15 ----------------
+C["C15"] = {
+ "pkgs": ["."],
+ "technique": "symbolic execution of the connection handler tail, clearExpiredClients, processDisconnect with intervals, server maximum and housekeeping times as solver variables",
+ "quick": {"harnesses": [H("VerifC15Expiry"), H("VerifC15DisconnectInterval")], "budget_s": 300, "witnesses": 8, "perm_limit": 1,
+   "bounds": "protocol 4/5, Clean, session expiry interval present or not and symbolic < 2^20, server maximum symbolic < 2^20, housekeeping time symbolic up to 2^21 s later; one subscription; DISCONNECT with a symbolic new interval"},
+ "thorough": {"harnesses": [H("VerifC15Expiry"), H("VerifC15DisconnectInterval")], "budget_s": 600, "witnesses": 16, "perm_limit": 1, "bounds": "as quick"},
+ "outside_bounds": ["the boundary second dt == disconnect+interval+1 is tolerated both ways ('once elapsed')", "intervals >= 2^20"],
+ "stubs": SRV_STUBS + LIVE, "trusted_base": SRV_TB,
+}
+# ---------------- C16 ----------------
+C["C16"] = {
+ "pkgs": ["."],
+ "technique": "bounded symbolic execution of the real connection handlers, sendLWT, sendDelayedLWT and processDisconnect over solver-chosen ways of ending the connection, will delay and housekeeping times symbolic; goroutine choices (old connection's teardown vs the new connection) explored",
+ "quick": {"harnesses": [H("VerifC16Will")], "budget_s": 400, "witnesses": 8, "perm_limit": 1,
+   "bounds": "will QoS 0/1, retain, delay 0 or symbolic 1..1000 s, protocol 4/5; end of connection in {DISCONNECT, DISCONNECT 0x04, connection lost, second CONNECT, takeover with Clean Start 0, takeover with Clean Start 1}; two housekeeping ticks at symbolic times with an optional resuming connection between them"},
+ "thorough": {"harnesses": [H("VerifC16Will")], "budget_s": 1200, "witnesses": 24, "perm_limit": 1, "preempt": 1, "bounds": "as quick plus one pre-emption at a synchronisation operation"},
+ "outside_bounds": ["session expiry ending the session before the delay (the delay is capped to the session expiry by ParseConnect; decided arithmetically there)", "interleavings beyond cooperative scheduling + the stated pre-emption bound"],
+ "stubs": SRV_STUBS + LIVE, "trusted_base": SRV_TB,
+}
+
 def main():
     os.makedirs(os.path.join(root, "checks"), exist_ok=True)
     for cid, c in C.items():
